@@ -5,7 +5,9 @@ The machine-side facts that make `Handoff.handoff_hb` applicable to the traces t
 machine `Prom.HM` accepts:
   * an accepted event on a shard's count cell is the observer's publish (`fetch_add`, at least
     Release), the collector's spin (compare-exchange, at least Acquire) or the collector's `addCount`
-    (`fetch_add`) — never a store or a swap, so every modification of a count cell is an RMW;
+    (`fetch_add`) — where each `fetch_add` may be written as a load + compare-exchange loop whose
+    successful exchange carries the same ordering (`FaEv`) — never a store or a swap, so every
+    modification of a count cell is an RMW (a successful compare-exchange IS one);
   * hence, in the memory-event trace of ANY accepted trace, every release write to a count cell
     synchronizes with every later successful spin on it (`replay_handoff`).
 -/
@@ -30,16 +32,41 @@ theorem casLoop_loc {e : Ev} {c : Hp.St} {pc : Pc} {b : Bool} {cell : Nat} {a : 
       simp only [Bool.and_eq_true, beq_iff_eq] at hg
       exact hg.1.1.1.1.1.2
 
+/-- the events a `fetch_add` site that needs the ordering `ord` accepts: THE step - the `fetch_add`, or the
+    successful compare-exchange of the loop it is written as, with an ordering at least `ord` -, or a stutter
+    of that loop - a load, a failed compare-exchange -/
+def FaEv (e : Ev) (ord : String) : Prop :=
+  ((e.k = "A" ∨ (e.k = "C" ∧ e.ok = true)) ∧ ordGe e.ord ord = true) ∨ e.k = "L" ∨ (e.k = "C" ∧ e.ok = false)
+
+/-- what a `fetch_add` site accepts is on the site's cell and is a `FaEv` of the site's ordering -/
+theorem fetchAdd_ev {e : Ev} {c : Hp.St} {pc : Pc} {loc : Loc} {ord : String} {a x : UInt64} {ok : Bool}
+    {msg : String} {onOk r : Res} (h : fetchAdd e c pc loc ord a x ok msg onOk = .ok r) :
+    parseLoc e.loc = loc ∧ FaEv e ord := by
+  rcases fetchAdd_cases h with ⟨_, hl, hk⟩ | ⟨_, _, hl, ho, _, hk⟩
+  · exact ⟨hl, .inr hk⟩
+  · exact ⟨hl, .inl ⟨hk, ho⟩⟩
+
+/-- a `FaEv` is a load, a `fetch_add` or a compare-exchange; as a memory event it reads, and it writes only
+    if it is the `fetch_add` or a SUCCESSFUL compare-exchange - a read-modify-write with the site's ordering -/
+theorem FaEv.kind {e : Ev} {ord : String} (h : FaEv e ord) :
+    (e.k = "A" ∨ e.k = "C" ∨ e.k = "L") ∧ (ofEv e).rd = true ∧
+    ((ofEv e).wr = true → (e.k = "A" ∨ (e.k = "C" ∧ e.ok = true)) ∧ ordGe e.ord ord = true) := by
+  rcases h with ⟨hk | ⟨hk, hok⟩, ho⟩ | hk | ⟨hk, hok⟩
+  · exact ⟨.inl hk, by simp [ofEv, hk], fun _ => ⟨.inl hk, ho⟩⟩
+  · exact ⟨.inr (.inl hk), by simp [ofEv, hk], fun _ => ⟨.inr ⟨hk, hok⟩, ho⟩⟩
+  · exact ⟨.inr (.inr hk), by simp [ofEv, hk], fun hw => by simp [ofEv, hk] at hw⟩
+  · exact ⟨.inr (.inl hk), by simp [ofEv, hk], fun hw => by simp [ofEv, hk, hok] at hw⟩
+
 /-- **what touches a count cell** — an event the machine accepts whose location is the count of
-    shard `b` is one of exactly three steps: the publish of an observer on `b` (a `fetch_add` with an
-    ordering at least Release), the spin of a collector whose cold shard is `b` (a compare-exchange
-    with an ordering at least Acquire), or the `addCount` of a collector whose hot shard is `b` (a
-    `fetch_add`) -/
+    shard `b` belongs to one of exactly three steps: the publish of an observer on `b` (a `fetch_add` site
+    with an ordering at least Release: `FaEv e "Release"`), the spin of a collector whose cold shard is `b`
+    (a compare-exchange with an ordering at least Acquire), or the `addCount` of a collector whose hot shard
+    is `b` (a `fetch_add` site: `FaEv e "Relaxed"`) -/
 theorem evStep1_cnt_cases {k : Nat} {c : Hp.St} {cuts : Cuts} {e : Ev} {pc : Pc} {r : Res × Cuts} {b : Bool}
     (h : evStep1 k c cuts e pc = .ok r) (hl : parseLoc e.loc = .cnt b) :
-    (∃ o, pc.task = some (.obsRun o b []) ∧ e.k = "A" ∧ ordGe e.ord "Release" = true) ∨
+    (∃ o, pc.task = some (.obsRun o b []) ∧ FaEv e "Release") ∨
     (∃ ov S, pc.task = some (.colSpin b ov S) ∧ e.k = "C" ∧ ordGe e.ord "Acquire" = true) ∨
-    (∃ ov todo taken S, pc.task = some (.colMove (!b) ov (.addCount :: todo) taken S) ∧ e.k = "A") := by
+    (∃ ov todo taken S, pc.task = some (.colMove (!b) ov (.addCount :: todo) taken S) ∧ FaEv e "Relaxed") := by
   obtain ⟨r1, r2⟩ := r
   unfold evStep1 at h
   simp only at h
@@ -50,28 +77,24 @@ theorem evStep1_cnt_cases {k : Nat} {c : Hp.St} {cuts : Cuts} {e : Ev} {pc : Pc}
     simp only [Bool.and_eq_true, beq_iff_eq] at hg
     rw [hl] at hg; exact absurd hg.1.1.2 (by simp)
   · -- obsStart
-    rw [plainR_ok, guard_ok] at h
-    obtain ⟨⟨hg, _⟩, _⟩ := h
-    simp only [Bool.and_eq_true, beq_iff_eq] at hg
-    rw [hl] at hg; exact absurd hg.1.1.1.1.2 (by simp)
+    rw [plainR_ok] at h
+    have := (fetchAdd_ev h.1).1
+    rw [hl] at this; cases this
   · -- obsRun, an update left
     simp only [obsEntry] at h
     split at h
-    · rw [plainR_ok, guard_ok] at h
-      obtain ⟨⟨hg, _⟩, _⟩ := h
-      simp only [Bool.and_eq_true, beq_iff_eq] at hg
-      rw [hl] at hg; exact absurd hg.1.1.1.2 (by simp)
+    · have := (fetchAdd_ev (plainR_ok.1 h).1).1
+      rw [hl] at this; cases this
     · rw [plainR_ok] at h
       have := casLoop_loc h.1
       rw [hl] at this; cases this
   · -- obsRun, publish
     next o b' ht =>
-    rw [plainR_ok, guard_ok] at h
-    obtain ⟨⟨hg, _⟩, _⟩ := h
-    simp only [Bool.and_eq_true, beq_iff_eq] at hg
-    have hb : b = b' := by have := hg.1.1.1.2; rw [hl] at this; cases this; rfl
+    rw [plainR_ok] at h
+    obtain ⟨hloc, hfa⟩ := fetchAdd_ev h.1
+    have hb : b = b' := by rw [hl] at hloc; cases hloc; rfl
     subst hb
-    exact .inl ⟨o, ht, hg.1.1.1.1, hg.1.1.2⟩
+    exact .inl ⟨o, ht, hfa⟩
   · -- colWant
     rw [plainR_ok, guard_ok] at h
     obtain ⟨⟨hg, _⟩, _⟩ := h
@@ -93,10 +116,9 @@ theorem evStep1_cnt_cases {k : Nat} {c : Hp.St} {cuts : Cuts} {e : Ev} {pc : Pc}
           obtain ⟨⟨hg, _⟩, _⟩ := h
           simp only [Bool.and_eq_true, beq_iff_eq] at hg
           rw [hl] at hg; exact absurd hg.2 (by simp)
-    · rw [plainR_ok, guard_ok] at h
-      obtain ⟨⟨hg, _⟩, _⟩ := h
-      simp only [Bool.and_eq_true, beq_iff_eq] at hg
-      rw [hl] at hg; exact absurd hg.1.1.1.2 (by simp)
+    · rw [plainR_ok] at h
+      have := (fetchAdd_ev h.1).1
+      rw [hl] at this; cases this
   · -- colSpin
     next cold ov S ht =>
     rw [plainR_ok, guard_ok] at h
@@ -117,21 +139,18 @@ theorem evStep1_cnt_cases {k : Nat} {c : Hp.St} {cuts : Cuts} {e : Ev} {pc : Pc}
       rw [hl] at hg; exact absurd hg.1.1.1.1.2 (by simp)
   · -- addHot
     split at h
-    · rw [plainR_ok, guard_ok] at h
-      obtain ⟨⟨hg, _⟩, _⟩ := h
-      simp only [Bool.and_eq_true, beq_iff_eq] at hg
-      rw [hl] at hg; exact absurd hg.1.1.1.2 (by simp)
+    · have := (fetchAdd_ev (plainR_ok.1 h).1).1
+      rw [hl] at this; cases this
     · rw [plainR_ok] at h
       have := casLoop_loc h.1
       rw [hl] at this; cases this
   · -- addCount
     next cold ov todo taken S ht =>
-    rw [plainR_ok, guard_ok] at h
-    obtain ⟨⟨hg, _⟩, _⟩ := h
-    simp only [Bool.and_eq_true, beq_iff_eq] at hg
-    have hb : b = !cold := by have := hg.1.1.1.2; rw [hl] at this; cases this; rfl
+    rw [plainR_ok] at h
+    obtain ⟨hloc, hfa⟩ := fetchAdd_ev h.1
+    have hb : b = !cold := by rw [hl] at hloc; cases hloc; rfl
     subst hb
-    exact .inr (.inr ⟨ov, todo, taken, S, by simpa using ht, hg.1.1.1.1⟩)
+    exact .inr (.inr ⟨ov, todo, taken, S, by simpa using ht, hfa⟩)
   · -- unlock
     split at h
     · cases h
@@ -147,11 +166,11 @@ theorem evStep1_cnt_cases {k : Nat} {c : Hp.St} {cuts : Cuts} {e : Ev} {pc : Pc}
     `addHot` step just before it (`taken cell = 0`) -/
 theorem evStep_cnt_cases {k : Nat} {c : Hp.St} {cuts : Cuts} {e : Ev} {pc : Pc} {r : Res × Cuts} {b : Bool}
     (h : evStep k c cuts e pc = .ok r) (hl : parseLoc e.loc = .cnt b) :
-    (∃ o, pc.task = some (.obsRun o b []) ∧ e.k = "A" ∧ ordGe e.ord "Release" = true) ∨
+    (∃ o, pc.task = some (.obsRun o b []) ∧ FaEv e "Release") ∨
     (∃ ov S, pc.task = some (.colSpin b ov S) ∧ e.k = "C" ∧ ordGe e.ord "Acquire" = true) ∨
     (∃ ov todo taken S, (pc.task = some (.colMove (!b) ov (.addCount :: todo) taken S) ∨
         ∃ cell, cell < k ∧ taken cell = 0 ∧
-          pc.task = some (.colMove (!b) ov (.addHot cell :: .addCount :: todo) taken S)) ∧ e.k = "A") := by
+          pc.task = some (.colMove (!b) ov (.addHot cell :: .addCount :: todo) taken S)) ∧ FaEv e "Relaxed") := by
   unfold evStep at h
   have h1 := evStep1_cnt_cases h hl
   rcases skipTask_cases k (parseLoc e.loc) pc.task with hs | ⟨cold, ov, cell, todo, taken, S, ht, hs, hc, h0, _⟩
@@ -169,35 +188,57 @@ theorem evStep_cnt_cases {k : Nat} {c : Hp.St} {cuts : Cuts} {e : Ev} {pc : Pc} 
       exact .inr (.inr ⟨ov, todo', taken, S, .inr ⟨cell, hc, h0, ht⟩, hk⟩)
 
 /-- **(a) count cells are only ever modified by RMWs** — an accepted event on a count cell is a
-    `fetch_add` ("A") or a compare-exchange ("C"), never a store or a swap; and a compare-exchange on
-    a count cell (it can only be a collector's spin) carries an ordering at least Acquire -/
+    `fetch_add` ("A"), a compare-exchange ("C") or - only as the load of a `fetch_add` written as a
+    compare-exchange loop - a load ("L"), never a store or a swap: as a memory event it reads, so whenever it
+    writes it is a read-modify-write. A compare-exchange that belongs to a collector's spin carries an
+    ordering at least Acquire (the other compare-exchanges on a count cell are those of a publish, at least
+    Release, or of an `addCount`). -/
 theorem evStep_cnt_kind {k : Nat} {c : Hp.St} {cuts : Cuts} {e : Ev} {pc : Pc} {r : Res × Cuts} {b : Bool}
     (h : evStep k c cuts e pc = .ok r) (hl : parseLoc e.loc = .cnt b) :
-    (e.k = "A" ∨ e.k = "C") ∧ (e.k = "C" → ordGe e.ord "Acquire" = true) := by
-  have hAC : ("A" : String) ≠ "C" := by decide +kernel
-  rcases evStep_cnt_cases h hl with ⟨_, _, hk, _⟩ | ⟨_, _, _, hk, ho⟩ | ⟨_, _, _, _, _, hk⟩
-  · exact ⟨.inl hk, fun h' => absurd (hk.symm.trans h') hAC⟩
-  · exact ⟨.inr hk, fun _ => ho⟩
-  · exact ⟨.inl hk, fun h' => absurd (hk.symm.trans h') hAC⟩
+    (e.k = "A" ∨ e.k = "C" ∨ e.k = "L") ∧ (ofEv e).rd = true ∧
+    (∀ cold ov S, pc.task = some (.colSpin cold ov S) → e.k = "C" ∧ ordGe e.ord "Acquire" = true) := by
+  rcases evStep_cnt_cases h hl with ⟨_, ht, hfa⟩ | ⟨_, _, ht, hk, ho⟩ | ⟨_, _, _, _, ht, hfa⟩
+  · exact ⟨hfa.kind.1, hfa.kind.2.1, fun _ _ _ ht' => by rw [ht] at ht'; cases ht'⟩
+  · exact ⟨.inr (.inl hk), (ofEv_rmw_of_kind (.inr hk)).1, fun _ _ _ _ => ⟨hk, ho⟩⟩
+  · refine ⟨hfa.kind.1, hfa.kind.2.1, fun _ _ _ ht' => ?_⟩
+    rcases ht with ht | ⟨_, _, _, ht⟩ <;> (rw [ht] at ht'; cases ht')
 
-/-- **(b), publish** — the event the machine accepts from an observer that has applied all its
-    updates (arm `obsRun o b []`) is a `fetch_add` on the count of its shard with an ordering at least
-    Release: as a memory event it is a release RMW -/
+/-- **(b), publish** — an event the machine accepts from an observer that has applied all its updates
+    (arm `obsRun o b []`) is on the count of its shard and reads. Either it is THE publish - a `fetch_add`,
+    or the successful compare-exchange of the loop the `fetch_add` is written as, with an ordering at least
+    Release: as a memory event a release RMW; it completes the call -, or it is a stutter of that loop (a
+    load, a failed compare-exchange): it writes nothing, changes nothing, and the call goes on. -/
 theorem evStep_publish_release {k : Nat} {c : Hp.St} {cuts : Cuts} {e : Ev} {pc : Pc} {r : Res × Cuts}
     {o : Obs} {b : Bool} (ht : pc.task = some (.obsRun o b []))
     (h : evStep k c cuts e pc = .ok r) :
-    e.k = "A" ∧ parseLoc e.loc = .cnt b ∧ ordGe e.ord "Release" = true ∧
-    (ofEv e).rd = true ∧ (ofEv e).wr = true ∧ (ofEv e).rel = true := by
+    parseLoc e.loc = .cnt b ∧ (ofEv e).rd = true ∧
+    (((e.k = "A" ∨ (e.k = "C" ∧ e.ok = true)) ∧ ordGe e.ord "Release" = true ∧
+        (ofEv e).wr = true ∧ (ofEv e).rel = true ∧ r.1.2.2 = some "") ∨
+     ((e.k = "L" ∨ (e.k = "C" ∧ e.ok = false)) ∧ (ofEv e).wr = false ∧ r.1.1 = c ∧ r.1.2.2 = none)) := by
   obtain ⟨r1, r2⟩ := r
   rw [evStep_eq_evStep1 (by intros; simp [ht])] at h
   unfold evStep1 at h
   simp only [ht] at h
-  rw [plainR_ok, guard_ok] at h
-  obtain ⟨⟨hg, _⟩, _⟩ := h
-  simp only [Bool.and_eq_true, beq_iff_eq] at hg
-  have hk := hg.1.1.1.1
-  exact ⟨hk, hg.1.1.1.2, hg.1.1.2, (ofEv_rmw_of_kind (.inl hk)).1,
-    (ofEv_rmw_of_kind (.inl hk)).2.mpr (.inl hk), ofEv_rel_of_ordGe hg.1.1.2⟩
+  rw [plainR_ok] at h
+  have hfa := (fetchAdd_ev h.1).2
+  rcases fetchAdd_cases h.1 with ⟨⟨ic, f, hr⟩, hl, hk⟩ | ⟨hr, _, hl, ho, _, hk⟩
+  · refine ⟨hl, hfa.kind.2.1, .inr ⟨hk, ?_, by rw [hr], by rw [hr]⟩⟩
+    cases hw : (ofEv e).wr
+    · rfl
+    · rcases (hfa.kind.2.2 hw).1 with hA | ⟨hC, hok⟩
+      · have hLA : ("L" : String) ≠ "A" := by decide +kernel
+        have hCA : ("C" : String) ≠ "A" := by decide +kernel
+        rcases hk with hk | ⟨hk, _⟩
+        · exact absurd (hk.symm.trans hA) hLA
+        · exact absurd (hk.symm.trans hA) hCA
+      · have hLC : ("L" : String) ≠ "C" := by decide +kernel
+        rcases hk with hk | ⟨_, hno⟩
+        · exact absurd (hk.symm.trans hC) hLC
+        · rw [hok] at hno; cases hno
+  · refine ⟨hl, hfa.kind.2.1, .inl ⟨hk, ho, ?_, ofEv_rel_of_ordGe ho, by rw [hr]; rfl⟩⟩
+    rcases hk with hk | ⟨hk, hok⟩
+    · exact (ofEv_rmw_of_kind (.inl hk)).2.mpr (.inl hk)
+    · exact (ofEv_rmw_of_kind (.inr hk)).2.mpr (.inr hok)
 
 /-- **(b), spin** — the event the machine accepts from a collector that has flipped (arm `colSpin`)
     is a compare-exchange on the count of the cold shard with an ordering at least Acquire: as a
@@ -240,10 +281,10 @@ theorem item_ev_accepts {s s' : St} {e : Ev} (h : item s (.ev e) = .ok s') :
       · next c' pc' rv cuts' hev => exact ⟨pc, _, hev⟩
 
 /-- every event of a trace the machine replays without divergence, on the count cell of a shard, is a
-    `fetch_add` or a compare-exchange, and the compare-exchanges are at least Acquire -/
+    `fetch_add`, a compare-exchange or (in a `fetch_add` written as a loop) a load: it reads -/
 theorem runItems_cnt_kind : ∀ (tr : List Item) (s s' : St) (n : Nat), runItems item s tr n = .ok s' →
     ∀ e ∈ evsOf tr, ∀ b, parseLoc e.loc = .cnt b →
-      (e.k = "A" ∨ e.k = "C") ∧ (e.k = "C" → ordGe e.ord "Acquire" = true)
+      (e.k = "A" ∨ e.k = "C" ∨ e.k = "L") ∧ (ofEv e).rd = true
   | [], _, _, _, _ => by intro e he; simp [evsOf] at he
   | it :: r, s, s', n, h => by
     simp only [runItems] at h
@@ -256,7 +297,7 @@ theorem runItems_cnt_kind : ∀ (tr : List Item) (s s' : St) (n : Nat), runItems
         have : e = e0 ∨ e ∈ evsOf r := by simpa [evsOf] using he
         rcases this with rfl | hm
         · obtain ⟨pc, r', hev⟩ := item_ev_accepts hs
-          exact evStep_cnt_kind hev hl
+          exact ⟨(evStep_cnt_kind hev hl).1, (evStep_cnt_kind hev hl).2.1⟩
         · exact ih e hm b hl
       | call t i op => exact ih e (by simpa [evsOf] using he) b hl
       | ret t i v => exact ih e (by simpa [evsOf] using he) b hl
@@ -272,24 +313,27 @@ theorem memTrace_cnt_rmw {tr : List Item} {s s' : St} {n : Nat} (h : runItems it
   obtain ⟨e, he, rfl⟩ := hm
   have hmem : e ∈ evsOf tr := List.mem_of_getElem? he
   have hl' : e.loc = c := hl
-  exact (ofEv_rmw_of_kind (runItems_cnt_kind tr s s' n h e hmem b (by rw [hl']; exact hc)).1).1
+  exact (runItems_cnt_kind tr s s' n h e hmem b (by rw [hl']; exact hc)).2
 
 /-- **replay_handoff** — in the memory-event trace of ANY trace the histogram machine replays without
-    divergence: if position `a` is a successful compare-exchange on a shard's count cell (it can only
-    be a collector's successful spin) and `p < a` is a release write to the same cell (e.g. a publish,
-    which the machine accepts with an ordering at least Release only — `evStep_publish_release`), then
+    divergence: if position `a` is a successful compare-exchange with an ordering at least Acquire on a
+    shard's count cell (every successful spin of a collector is one: `evStep_spin_acquire`; since a publish
+    or an `addCount` may now be written as a compare-exchange loop too, the spin is told apart by its
+    ordering, hypothesis `haacq`, which the machine used to guarantee for every compare-exchange on a count
+    cell) and `p < a` is a release write to the same cell (e.g. a publish, which the machine accepts with an
+    ordering at least Release only — `evStep_publish_release`), then
     `p` synchronizes with `a`, and everything program-ordered before `p` happens-before everything
     program-ordered after `a` -/
 theorem replay_handoff {tr : List Item} {s s' : St} {n : Nat} (h : runItems item s tr n = .ok s')
     {p a : Nat} {ep ea : Ev} {b : Bool} (hpa : p < a)
     (hp : (evsOf tr)[p]? = some ep) (ha : (evsOf tr)[a]? = some ea)
     (hal : parseLoc ea.loc = .cnt b) (hak : ea.k = "C") (haok : ea.ok = true)
+    (haacq : ordGe ea.ord "Acquire" = true)
     (hpl : ep.loc = ea.loc) (hpw : (ofEv ep).wr = true) (hprel : (ofEv ep).rel = true) :
     sw (memTrace tr) p a ∧
     (∀ e f, po (memTrace tr) e p → po (memTrace tr) a f → hb (memTrace tr) e f) ∧
     (∀ e, po (memTrace tr) e p → hb (memTrace tr) e a) ∧ (∀ f, po (memTrace tr) a f → hb (memTrace tr) p f) := by
-  have hmem : ea ∈ evsOf tr := List.mem_of_getElem? ha
-  have hacq := (runItems_cnt_kind tr s s' n h ea hmem b hal).2 hak
+  have hacq := haacq
   have hp' : (memTrace tr)[p]? = some (ofEv ep) := by simp [memTrace, List.getElem?_map, hp]
   have ha' : (memTrace tr)[a]? = some (ofEv ea) := by simp [memTrace, List.getElem?_map, ha]
   exact handoff_hb (c := ea.loc) (memTrace_cnt_rmw h hal) hpa hp' hpl hpw hprel ha' rfl
